@@ -52,6 +52,14 @@ def generate(tier, rng):
                     if x not in seen:
                         seen.add(x)
                         c.op(e.id, 'parse %s' % hx(x), cls)
+    # an exact and an insensitive variant with the SAME spelling: the exact one does not make the other one case-sensitive
+    ovs = strcorpus.overlap_enums('C12')
+    oinfo = strcorpus.query_model(ovs)
+    for e in ovs:
+        c.add(e, in_domain=oinfo[e.id]['nooverlap'])
+        for s in strcorpus.OVERLAP_INPUTS:
+            c.op(e.id, 'parse %s' % hx(s), 'shared-spelling')
+    strcorpus.pointwise_domain(c)
     return c
 
 
